@@ -57,8 +57,9 @@ def gen_queue_cases(tier, seed):
     rng = random.Random(seed + 1)
     cases = []
     Q = R + "/k/var/queue"
-    targets = ["x", "relative/path", "/", "/a", "/.", "/./", "//", "/" + "./" * 40 + "w/a", "/./././" + WATCH[1:] + "/n", WATCH, WATCH + "/n",
-               "/" * 20 + "x", "/." * 30, R + "/w", "/w", "/./" + R[1:] + "/w/proj", "/.//" + WATCH[1:] + "/n",
+    # absolute targets outside the sandbox must not exist on any machine ("/w" does on some)
+    targets = ["x", "relative/path", "/", "/kvna", "/.", "/./", "//", "/" + "./" * 40 + "kvnx/a", "/./././" + WATCH[1:] + "/n", WATCH, WATCH + "/n",
+               "/" * 20 + "x", "/." * 30, R + "/w", "/kvnx", "/./" + R[1:] + "/w/proj", "/.//" + WATCH[1:] + "/n",
                "/" + "/" * 33 + "." + WATCH + "/n", "/" + "./" * 31 + "/" + WATCH[1:] + "/n"]
     names = ["0", "1", "2", "5", "007", "10", "x", "1x", "99999999999999999999"]
     n = 0
